@@ -85,17 +85,17 @@ type udpSock struct {
 	in        *inbox
 	demux     func(d dgram) // pion listener: datagrams are dispatched instead of queued
 
-	mu       sync.Mutex
-	closed   bool
-	closedCh chan struct{}
-	rdl, wdl time.Time
-	bcast    int // broadcast port this socket listens to (peers), 0 none
-	ReadErr  error
+	mu        sync.Mutex
+	closed    bool
+	closedCh  chan struct{}
+	rdl, wdl  time.Time
+	bcast     int // broadcast port this socket listens to (peers), 0 none
+	ReadErr   error
 	ReadErrAt int
 	ReadErrV  error
-	NReads   int
-	NWrites  int
-	Sent     [][]byte
+	NReads    int
+	NWrites   int
+	Sent      [][]byte
 }
 
 func (w *World) newSock(port int, node bool) *udpSock {
@@ -683,7 +683,9 @@ func (c *PacketConn) Close() error {
 	return nil
 }
 
-func (c *PacketConn) LocalAddr() net.Addr { return &net.UDPAddr{IP: net.IPv4(127, 0, 0, 1), Port: c.s.port} }
+func (c *PacketConn) LocalAddr() net.Addr {
+	return &net.UDPAddr{IP: net.IPv4(127, 0, 0, 1), Port: c.s.port}
+}
 func (c *PacketConn) SetDeadline(t time.Time) error {
 	c.SetReadDeadline(t)  //nolint
 	c.SetWriteDeadline(t) //nolint
